@@ -24,7 +24,49 @@ CLASSES = [
 ]
 
 
+SIZE_FMT = {(1, False): 'U8', (2, False): 'U16', (4, False): 'U32', (8, False): 'U64', (4, True): 'I32', (8, True): 'I64'}
+
+
+def _int_bytes_call(n):
+    """x.to_bytes(N, 'little'[, signed=..]) / int.from_bytes(b, 'little'[, signed=..]) with literal
+    arguments -> the equivalent struct field; None when n is not such a call; raises on a variant it
+    cannot read (big endian, non-literal size)."""
+    if not (isinstance(n, ast.Call) and isinstance(n.func, ast.Attribute) and n.func.attr in ('to_bytes', 'from_bytes')):
+        return None
+    signed = False
+    for kw in n.keywords:
+        if kw.arg == 'signed' and isinstance(kw.value, ast.Constant):
+            signed = bool(kw.value.value)
+        elif kw.arg not in ('byteorder', 'length'):
+            raise ValueError('unreadable %s call' % n.func.attr)
+    consts = [a.value for a in n.args if isinstance(a, ast.Constant)] + \
+             [kw.value.value for kw in n.keywords if kw.arg in ('byteorder', 'length') and isinstance(kw.value, ast.Constant)]
+    if 'little' not in consts:
+        raise ValueError('%s without literal little-endian byte order' % n.func.attr)
+    if n.func.attr == 'to_bytes':
+        sizes = [c for c in consts if isinstance(c, int) and not isinstance(c, bool)]
+        if len(sizes) != 1:
+            raise ValueError('to_bytes without a literal size')
+        size = sizes[0]
+    else:
+        # int.from_bytes(ser_read(f, N), 'little'): the size is the literal N of the read
+        inner = [a for a in n.args if isinstance(a, ast.Call)]
+        if len(inner) != 1 or not (isinstance(inner[0].func, ast.Name) and inner[0].func.id == 'ser_read'
+                                   and len(inner[0].args) == 2 and isinstance(inner[0].args[1], ast.Constant)):
+            raise ValueError('from_bytes of something that is not ser_read(f, <literal>)')
+        size = inner[0].args[1].value
+    if (size, signed) not in SIZE_FMT:
+        raise ValueError('integer field of %r bytes (signed=%r)' % (size, signed))
+    return SIZE_FMT[(size, signed)]
+
+
 def formats(func):
+    """The fixed-width integer fields a method writes / reads, in order of appearance.  Closed list
+    of statement shapes: struct.pack / struct.unpack with a literal format, int.to_bytes /
+    int.from_bytes(ser_read(f, N)) with literal little-endian arguments.  Every f.write(...) must
+    write one of: such a field, a name / attribute / subscript (raw bytes); every read must go
+    through ser_read; anything else (f.read, b''.join, arithmetic on bytes, ...) is outside the
+    subset and raises, so that extract.py fails closed instead of emitting a partial layout."""
     out = []
     for n in ast.walk(func):
         if isinstance(n, ast.Call) and isinstance(n.func, ast.Attribute) and \
@@ -34,6 +76,24 @@ def formats(func):
                 raise ValueError('non-literal struct format')
             s = a.value.decode() if isinstance(a.value, bytes) else a.value
             out.append((n.lineno, n.col_offset, split_format(s)))
+        else:
+            f = _int_bytes_call(n)
+            if f is not None:
+                out.append((n.lineno, n.col_offset, [f]))
+        if isinstance(n, ast.Call) and isinstance(n.func, ast.Attribute) and isinstance(n.func.value, ast.Name) \
+                and n.func.value.id == 'f':
+            if n.func.attr == 'write':
+                a = n.args[0] if n.args else None
+                ok = isinstance(a, (ast.Name, ast.Attribute, ast.Subscript, ast.Constant)) or \
+                    (isinstance(a, ast.Call) and isinstance(a.func, ast.Attribute) and
+                     ((a.func.attr == 'pack' and isinstance(a.func.value, ast.Name) and a.func.value.id == 'struct')
+                      or a.func.attr == 'to_bytes')) or \
+                    (isinstance(a, ast.Call) and isinstance(a.func, ast.Name) and a.func.id == 'bytes'
+                     and len(a.args) == 1 and isinstance(a.args[0], ast.List))          # bytes([i]): one raw byte
+                if not ok:
+                    raise ValueError('f.write of an expression outside the translatable subset (line %d)' % n.lineno)
+            elif n.func.attr in ('read', 'readinto', 'peek'):
+                raise ValueError('direct stream access f.%s (line %d): reads must go through ser_read' % (n.func.attr, n.lineno))
     return [f for _, _, fs in sorted(out) for f in fs]
 
 
